@@ -7,6 +7,7 @@ import (
 	"fmt"
 	"math"
 	"math/big"
+	"strconv"
 	"strings"
 	"testing"
 
@@ -304,8 +305,38 @@ func prop(c Case) error {
 		opt(&e4)
 		for i, e := range []*wkt.Encoder{e1, e2, e3, &e4} {
 			how := []string{"NewEncoder(option)", "NewEncoder() with the option applied afterwards", fmt.Sprintf("an encoder that had the limit %d and encoded with it, with the option applied afterwards", other), "the zero Encoder with the option applied"}[i]
-			if got, err := e.Encode(t); err != nil || got != text {
+			got, err := e.Encode(t)
+			if err != nil || got != text {
 				return fmt.Errorf("%s, limit %d: %q, %v; wkt.Marshal with the option gives %q", how, c.D, clip(got), err, clip(text))
+			}
+			// the text returned stays what it is when the same encoder writes another one
+			was := strings.Clone(got)
+			if _, err := e.Encode(geom.NewPointFlat(geom.XY, []float64{0.123456789, -2})); err != nil {
+				return fmt.Errorf("%s: Encode of a plain point: %v", how, err)
+			}
+			if got != was {
+				return fmt.Errorf("%s: the text returned changed when the same encoder encoded a point afterwards: now %q, was %q", how, clip(got), clip(was))
+			}
+		}
+		// after all that, no option given means no limit: Marshal without options and a new
+		// encoder without options write the same text (and it says the ordinates exactly)
+		plain, err := wkt.Marshal(t)
+		if err != nil {
+			return fmt.Errorf("wkt.Marshal without options: %v", err)
+		}
+		if fresh, err := wkt.NewEncoder().Encode(t); err != nil || fresh != plain {
+			return fmt.Errorf("wkt.Marshal without options after calls with a limit of %d: %q; a new encoder without options: %q, %v", c.D, clip(plain), clip(fresh), err)
+		}
+		if ptoks, err := refwkt.Tokens(plain); err == nil {
+			i := 0
+			for _, tk := range ptoks {
+				if tk.Kind != refwkt.TNum {
+					continue
+				}
+				if v, err := strconv.ParseFloat(tk.Text, 64); i < len(xs) && (err != nil || v != xs[i]) {
+					return fmt.Errorf("wkt.Marshal without options after calls with a limit of %d: number %d is %q, the ordinate %v", c.D, i, tk.Text, xs[i])
+				}
+				i++
 			}
 		}
 		toks, err := refwkt.Tokens(text)
